@@ -373,6 +373,13 @@ def segment_faults(m, doc, rng, kinds):
                 sid = next(x for x in ('ZZZ', 'ZQ', 'XQ9', 'QQQ') if x not in ids_in_map)
                 out.append({'kind': 'unknown_seg', 'line': k, 'op': 'insert_after', 'neutral': True, 'code': '1', 'seg_id': sid,
                             'new_segs': [{'id': sid, 'vals': ['A1', 'B2'], 'uid': -1}], 'ele': None, 'comp': None, 'value': None, 'ref': None})
+        if 'unknown_seg' in kinds:
+            # the same between the envelope segments, outside any transaction set (after ISA, GS, SE, GE or IEA)
+            gaps = [i for i, s in enumerate(doc) if s['id'] in ('ISA', 'GS', 'SE', 'GE', 'IEA')]
+            sid = next(x for x in ('ZZZ', 'ZQ', 'XQ9', 'QQQ') if x not in ids_in_map)
+            for k in rng.sample(gaps, min(2, len(gaps))):
+                out.append({'kind': 'unknown_seg', 'line': k, 'op': 'insert_after', 'neutral': True, 'code': '1', 'seg_id': sid, 'ctx': 'gap',
+                            'new_segs': [{'id': sid, 'vals': ['A1', 'B2'], 'uid': -1}], 'ele': None, 'comp': None, 'value': None, 'ref': None})
         if 'misplaced_seg' in kinds:
             # a copy of an early segment placed where the outward search cannot find it (after the last body segment of the set)
             for _ in range(2):
@@ -504,7 +511,7 @@ def apply_fault(doc, f):
         d[line + 1:line + 1] = new
         delta = len(new)
         where = line + 1
-    if delta:
+    if delta and f.get('ctx') != 'gap':
         a, b = set_bounds(d, min(where, len(d) - 1))
         if 0 <= a < b < len(d) and d[b]['id'] == 'SE':
             try:
